@@ -149,6 +149,44 @@ pub fn cases(rng: &mut Rng, thorough: bool, out: &mut Out, real: &[(String, Vec<
     // nesting: a chain of one-element sequences / maps
     for d in [1usize, 2, 10, 30, 60] { let mut v = Mv::Int(7); for i in 0..d { v = if i % 2 == 0 { Mv::Arr(vec![v]) } else { Mv::Map(vec![(Mv::Str("n".into()), v)]) }; } trees.push(("nested", v)); }
     for _ in 0..(if thorough { 4000 } else { 400 }) { trees.push(("random", gen(rng, 4))); }
+    // derived structures: how serde's data model reaches the byte format through `to_vec_named` — a structure is a map keyed by its
+    // member names in declaration order, `None` is nil (or absent with skip_serializing_if), a unit variant is its name, a newtype
+    // variant a one-pair map, a tuple a sequence, a newtype structure its content. The expected tree is written out by hand here;
+    // the model encodes it (op mp_encode) and the library encodes the structure itself.
+    {
+        #[derive(Serialize, Deserialize, PartialEq, Debug, Clone)]
+        enum Kind { Plain, Boxed(u16), Pair(i8, String) }
+        #[derive(Serialize, Deserialize, PartialEq, Debug, Clone)]
+        struct Wrapped(u64);
+        #[derive(Serialize, Deserialize, PartialEq, Debug, Clone)]
+        struct Probe { schema_id: String, count: u32, delta: i64, opt: Option<String>, #[serde(skip_serializing_if = "Option::is_none")] skipped: Option<u8>, list: Vec<i64>, kind: Kind, wrapped: Wrapped, flag: bool, pair: (u8, String) }
+        let s = |t: &str| Mv::Str(t.to_string());
+        for i in 0..(if thorough { 200 } else { 40 }) {
+            let kind = match i % 3 { 0 => Kind::Plain, 1 => Kind::Boxed(rng.below(70_000) as u16), _ => Kind::Pair(rng.range(-128, 127) as i8, text(rng, 3)) };
+            let sl = rng.below(40) as usize;
+            let p = Probe { schema_id: text(rng, sl), count: *rng.pick(&[0u32, 127, 128, 255, 256, 65_535, 65_536, u32::MAX]), delta: *rng.pick(&[0i64, -1, -32, -33, -128, -129, i64::MIN, i64::MAX, 300]),
+                opt: if rng.chance(1, 2) { Some(text(rng, 5)) } else { None }, skipped: if rng.chance(1, 2) { Some(rng.below(256) as u8) } else { None },
+                list: (0..rng.below(20)).map(|_| rng.range(-70_000, 70_000)).collect(), kind: kind.clone(), wrapped: Wrapped(rng.next()), flag: rng.chance(1, 2), pair: (rng.below(256) as u8, text(rng, 2)) };
+            let mut m = vec![(s("schema_id"), Mv::Str(p.schema_id.clone())), (s("count"), Mv::Int(p.count as i128)), (s("delta"), Mv::Int(p.delta as i128)), (s("opt"), p.opt.clone().map(Mv::Str).unwrap_or(Mv::Nil))];
+            if let Some(x) = p.skipped { m.push((s("skipped"), Mv::Int(x as i128))); }
+            m.push((s("list"), Mv::Arr(p.list.iter().map(|x| Mv::Int(*x as i128)).collect())));
+            m.push((s("kind"), match &kind { Kind::Plain => s("Plain"), Kind::Boxed(n) => Mv::Map(vec![(s("Boxed"), Mv::Int(*n as i128))]), Kind::Pair(a, b) => Mv::Map(vec![(s("Pair"), Mv::Arr(vec![Mv::Int(*a as i128), Mv::Str(b.clone())]))]) }));
+            m.push((s("wrapped"), Mv::Int(p.wrapped.0 as i128)));
+            m.push((s("flag"), Mv::Bool(p.flag)));
+            m.push((s("pair"), Mv::Arr(vec![Mv::Int(p.pair.0 as i128), Mv::Str(p.pair.1.clone())])));
+            let expected = Mv::Map(m);
+            let Ok(bytes) = msgpack_encode(&p) else { continue };
+            out.count("c15:mp:struct");
+            cases.push((json!({"op":"mp_encode","fam":"c15.mp","cls":"enc-struct","v":tree(&expected),"nt":true}), json!(hex(&bytes))));
+            if let Mv::Map(kvs) = &expected {
+                let fields: Vec<Value> = kvs.iter().map(|(k, v)| json!([if let Mv::Str(t) = k { hex(t.as_bytes()) } else { String::new() }, tree(v)])).collect();
+                cases.push((json!({"op":"mp_struct","fam":"c15.mp","cls":"struct-members","fields":fields,"nt":true}), json!({"hex": hex(&bytes), "members_found": true})));
+            }
+            // oracles on the real code: the structure is read back from its bytes, and from the bytes of the hand-written tree
+            if msgpack_decode::<Probe>(&bytes).ok().as_ref() != Some(&p) { out.oracle_fail("a derived structure is not read back from its msgpack bytes", &json!({"fam":"c15.mp","sig":"","hex":hex(&bytes)}), &Value::Null); }
+            if let Ok(tb) = msgpack_encode(&expected) { if msgpack_decode::<Probe>(&tb).ok().as_ref() != Some(&p) { out.oracle_fail("a derived structure is not read from the map of its members", &json!({"fam":"c15.mp","sig":"","hex":hex(&tb)}), &Value::Null); } }
+        }
+    }
     let mut byte_inputs: Vec<(String, Vec<u8>)> = vec![];
     for (cls, v) in &trees {
         let Ok(bytes) = msgpack_encode(v) else { out.oracle_fail("a value of the fragment is not written", &json!({"fam":"c15.mp","sig":"","tree":tree(v)}), &Value::Null); continue };
